@@ -135,6 +135,18 @@ PROPS = {
         "stubs": KANI_STUBS,
         "assumptions": TRUST,
     },
+    "C16": {
+        "engines": ["E2 mirsym+z3/cvc5"],
+        "e2": True,
+        "functions": [
+            ("rsass::variablescope::Scope::set_variable", "variablescope.rs", r"pub fn set_variable"),
+            ("rsass::variablescope::Scope::define_global", "variablescope.rs", r"pub fn define_global"),
+        ],
+        "bounds": {"quick": "Scope::set_variable for ANY name/value, both flags symbolic, the existing binding arbitrary (absent / null / any value kind); define_global one step (inductive over the parent chain)"},
+        "outside": "which transform.rs / eval_body arms create sub-scopes (rules, mixins, functions vs flow control), store_local_values/restore_local_values around @each, parameters and loop variables being local (define() callers); the Mutex<BTreeMap> itself is an opaque event",
+        "stubs": ["Scope::get_or_none returns an arbitrary Option<css::Value>", "Mutex::lock / BTreeMap::insert / define_global are events", "Name::split_module is forced to None (plain name) or Some (module.name)"],
+        "assumptions": ["rustc nightly MIR text = the code that is compiled", "mirsym's MIR subset semantics (/verif/mirsym/sym.py)", "z3 5.1 and cvc5 1.0.3 (every query on both)"],
+    },
     "C17": {
         "engines": ["E1 Kani/CBMC", "E2 mirsym+z3/cvc5"],
         "e2": True,
